@@ -52,6 +52,9 @@ impl<'tcx> V<'tcx> {
         }
     }
 }
+fn tcx_is_option(tcx: TyCtxt<'_>, did: DefId) -> bool {
+    tcx.is_lang_item(did, LangItem::Option)
+}
 pub fn ptr0<'tcx>(cell: usize) -> Ptr<'tcx> {
     Ptr { cell, segs: vec![Seg { view: None, path: vec![] }], win: None }
 }
@@ -72,6 +75,21 @@ pub struct Cell<'tcx> {
     pub name: Option<String>,
 }
 #[derive(Clone)]
+pub struct Pending<'tcx> {
+    /// number of frames when the operation was started (it continues when the stack is back at this depth)
+    pub depth: usize,
+    pub fcell: usize,
+    pub fty: Ty<'tcx>,
+    pub items: Vec<V<'tcx>>,
+    pub item_ty: Ty<'tcx>,
+    pub out_ty: Ty<'tcx>,
+    pub idx: usize,
+    pub results: Vec<V<'tcx>>,
+    pub slot: usize,
+    pub dest: Ptr<'tcx>,
+    pub target: BasicBlock,
+}
+#[derive(Clone)]
 pub struct State<'tcx> {
     pub cells: Vec<Cell<'tcx>>,
     pub frames: Vec<Frame<'tcx>>,
@@ -82,6 +100,8 @@ pub struct State<'tcx> {
     pub symcells: Vec<(T, usize)>,
     /// (term, value) pairs ruled out on this path by an `otherwise` arm
     pub excluded: Vec<(T, u128)>,
+    /// native continuations: an operation of the library that calls a closure once per element (`[T; N]::map`)
+    pub pending: Vec<Pending<'tcx>>,
 }
 pub enum Outcome<'tcx> {
     Ret(V<'tcx>, Ty<'tcx>, State<'tcx>),
@@ -568,6 +588,14 @@ impl<'tcx> Cx<'tcx> {
             if let Some(p) = uv.promoted {
                 if self.tcx.promoted_mir(uv.def).get(p).is_none() {
                     evaluable = false;
+                }
+            }
+        }
+        if let mir::Const::Val(val, vty) = cc {
+            // an already evaluated constant whose TYPE still mentions a parameter (`None::<&[S]>`): its value is known
+            if !evaluable && matches!(vty.kind(), ty::Adt(d, _) if d.is_enum()) {
+                if let Some(v) = self.destructure_const(val, vty, 0) {
+                    return Ok(v);
                 }
             }
         }
@@ -1109,6 +1137,25 @@ impl<'tcx> Cx<'tcx> {
                             }
                             Ok(V::Ref(p))
                         }
+                        // `NonZero::new(n)`: an integer seen as Option<NonZero<_>> (0 is None), and a one-leaf wrapper seen as its integer
+                        (V::Int(k), ty::Adt(d, a)) if d.is_enum() && tcx_is_option(self.tcx, d.did()) && self.leaf_count(a.type_at(0)) == 1 => {
+                            if k == 0 {
+                                Ok(V::Enum(0, vec![]))
+                            } else {
+                                let inner = a.type_at(0);
+                                let mut it = vec![V::Int(k)].into_iter();
+                                Ok(V::Enum(1, vec![self.unflatten(&mut it, inner)?]))
+                            }
+                        }
+                        (V::Int(k), _) if self.field_tys(ty).is_some() && self.leaf_count(ty) == 1 => {
+                            let mut it = vec![V::Int(k)].into_iter();
+                            self.unflatten(&mut it, ty)
+                        }
+                        (v @ V::Agg(_), ty::Int(_) | ty::Uint(_)) if self.leaf_count(sty) == 1 => {
+                            let mut out = vec![];
+                            self.flatten(&v, sty, &mut out);
+                            out.into_iter().next().ok_or_else(|| "empty wrapper".to_string())
+                        }
                         (V::Sym(t), _) => Ok(V::Sym(app("transmute", vec![t]))),
                         // by-value reinterpretation between aggregates with the same leaves
                         (v @ (V::Agg(_) | V::Undef), _) if self.field_tys(sty).is_some() && self.field_tys(ty).is_some() => self.review(&v, sty, ty),
@@ -1231,7 +1278,7 @@ impl<'tcx> Cx<'tcx> {
         }
         match (a, b) {
             (V::Sym(_) | V::Int(_), V::Sym(_) | V::Int(_)) => {
-                let st = State { cells: vec![], frames: vec![], trace: vec![], decided: vec![], symcells: vec![], excluded: vec![] };
+                let st = State { cells: vec![], frames: vec![], trace: vec![], decided: vec![], symcells: vec![], excluded: vec![], pending: vec![] };
                 Some(V::Sym(app("ite", vec![c, self.to_term(&st, a), self.to_term(&st, b)])))
             }
             (V::Agg(x), V::Agg(y)) if x.len() == y.len() => {
@@ -1362,7 +1409,7 @@ impl<'tcx> Cx<'tcx> {
     }
 
     fn run_from_inner(&self, st0: &mut State<'tcx>, base: usize) -> Outcome<'tcx> {
-        let mut st = std::mem::replace(st0, State { cells: vec![], frames: vec![], trace: vec![], decided: vec![], symcells: vec![], excluded: vec![] });
+        let mut st = std::mem::replace(st0, State { cells: vec![], frames: vec![], trace: vec![], decided: vec![], symcells: vec![], excluded: vec![], pending: vec![] });
         loop {
             {
                 let mut s = self.stats.borrow_mut();
@@ -1372,6 +1419,15 @@ impl<'tcx> Cx<'tcx> {
                 }
                 if s.leaves > LEAF_CAP {
                     return Outcome::Top("leaf cap".into());
+                }
+            }
+            if let Some(p) = st.pending.last() {
+                if p.depth == st.frames.len() {
+                    match self.step_pending(&mut st, base) {
+                        Ok(None) => continue,
+                        Ok(Some(o)) => return o,
+                        Err(e) => return self.top(e, rustc_span::DUMMY_SP),
+                    }
                 }
             }
             {
@@ -1916,6 +1972,23 @@ impl<'tcx> Cx<'tcx> {
                                 return Ok(Some(unit));
                             }
                         }
+                        // windows(n) / chunks_exact(n) with a concrete n: a by-value cursor over the list of sub-slices
+                        "windows" | "chunks_exact" => {
+                            if let Some(n) = idx(1) {
+                                if n == 0 {
+                                    return Err("PANIC:window size must be non-zero".into());
+                                }
+                                let starts: Vec<usize> = if m == "windows" { if len >= n { (0..=len - n).collect() } else { vec![] } } else { (0..len / n).map(|i| i * n).collect() };
+                                let rty = Ty::new_imm_ref(self.tcx, self.tcx.lifetimes.re_erased, self.ptr_ty(st, p)?);
+                                let items: Vec<V<'tcx>> = starts.iter().map(|a| sub(*a, n)).collect();
+                                let cnt = items.len();
+                                let aty = Ty::new_array(self.tcx, rty, cnt as u64);
+                                st.cells.push(Cell { ty: aty, v: V::Agg(items), name: None });
+                                let mut q = ptr0(st.cells.len() - 1);
+                                q.win = Some((0, cnt));
+                                return Ok(Some(V::Iter { ptr: q, front: 0, back: cnt, by_value: true }));
+                            }
+                        }
                         "split_at" | "split_at_mut" => {
                             if let Some(mid) = idx(1) {
                                 if mid > len {
@@ -2100,6 +2173,33 @@ impl<'tcx> Cx<'tcx> {
             }
             return Ok(Some(Outcome::Switch(t, outs, None)));
         }
+        // `[T; N]::map(f)`: f applied to every element in order (a native continuation, see step_pending)
+        if (pretty == "core::array::<impl [T; N]>::map" || pretty == "std::array::<impl [T; N]>::map") && argv.len() == 2 {
+            if let (V::Agg(items), ty::Array(item_ty, _), ty::Array(out_ty, _), Some(tgt)) = (&argv[0], argtys[0].kind(), dty.kind(), target) {
+                st.cells.push(Cell { ty: argtys[1], v: argv[1].clone(), name: None });
+                let fcell = st.cells.len() - 1;
+                st.cells.push(Cell { ty: *out_ty, v: V::Undef, name: None });
+                let slot = st.cells.len() - 1;
+                st.pending.push(Pending { depth: st.frames.len(), fcell, fty: argtys[1], items: items.clone(), item_ty: *item_ty, out_ty: *out_ty, idx: 0, results: vec![], slot, dest: dest.clone(), target: tgt });
+                push_uniq(&mut self.stats.borrow_mut().models, name.clone());
+                return self.step_pending(st, base);
+            }
+        }
+        // `array::from_fn(f)`: f applied to 0, 1, ..., N-1
+        if (pretty == "core::array::from_fn" || pretty == "std::array::from_fn") && argv.len() == 1 {
+            if let (ty::Array(out_ty, n), Some(tgt)) = (dty.kind(), target) {
+                if let Some(n) = n.try_to_target_usize(tcx) {
+                    st.cells.push(Cell { ty: argtys[0], v: argv[0].clone(), name: None });
+                    let fcell = st.cells.len() - 1;
+                    st.cells.push(Cell { ty: *out_ty, v: V::Undef, name: None });
+                    let slot = st.cells.len() - 1;
+                    let items = (0..n).map(|i| V::Int(i as u128)).collect();
+                    st.pending.push(Pending { depth: st.frames.len(), fcell, fty: argtys[0], items, item_ty: tcx.types.usize, out_ty: *out_ty, idx: 0, results: vec![], slot, dest: dest.clone(), target: tgt });
+                    push_uniq(&mut self.stats.borrow_mut().models, name.clone());
+                    return self.step_pending(st, base);
+                }
+            }
+        }
         // a tuple-struct / tuple-variant constructor used as a function (`.map(Some)`, `.map(Rad)`)
         if let rustc_hir::def::DefKind::Ctor(of, rustc_hir::def::CtorKind::Fn) = tcx.def_kind(cdid) {
             let r = match of {
@@ -2272,6 +2372,46 @@ impl<'tcx> Cx<'tcx> {
         let r = self.shape(st, dty, ct);
         finish(self, st, r)?;
         Ok(None)
+    }
+
+    /// One step of `[T; N]::map(f)`: collect the result of the previous call of `f`, start the next one, or finish.
+    fn step_pending(&self, st: &mut State<'tcx>, base: usize) -> R<Option<Outcome<'tcx>>> {
+        let tcx = self.tcx;
+        loop {
+            let mut p = st.pending.pop().ok_or("no pending operation")?;
+            if p.idx > 0 && p.results.len() < p.idx {
+                let v = st.cells[p.slot].v.clone();
+                if matches!(v, V::Undef) {
+                    return Err("closure result missing in array::map".into());
+                }
+                p.results.push(v);
+                st.cells[p.slot].v = V::Undef;
+            }
+            if p.idx == p.items.len() {
+                let r = V::Agg(p.results.clone());
+                self.write(st, &p.dest, r)?;
+                self.goto(st, p.target);
+                return Ok(None);
+            }
+            let item = p.items[p.idx].clone();
+            p.idx += 1;
+            let (fcell, fty, item_ty, out_ty, slot, depth) = (p.fcell, p.fty, p.item_ty, p.out_ty, p.slot, p.depth);
+            let cur_bb = st.frames.last().ok_or("no frame")?.bb;
+            st.pending.push(p);
+            let fn_mut = tcx.require_lang_item(LangItem::FnMut, rustc_span::DUMMY_SP);
+            let call_mut = tcx.associated_items(fn_mut).in_definition_order().find(|a| a.name().as_str() == "call_mut").ok_or("no call_mut")?.def_id;
+            let tup = Ty::new_tup(tcx, &[item_ty]);
+            let cargs = tcx.mk_args(&[fty.into(), tup.into()]);
+            let fref_ty = Ty::new_mut_ref(tcx, tcx.lifetimes.re_erased, fty);
+            let r = self.call(st, base, call_mut, cargs, vec![V::Ref(ptr0(fcell)), V::Agg(vec![item])], vec![fref_ty, tup], ptr0(slot), out_ty, Some(cur_bb), rustc_span::DUMMY_SP)?;
+            if let Some(o) = r {
+                return Ok(Some(o));
+            }
+            if st.frames.len() > depth {
+                return Ok(None); // the closure body runs; we are called again when it has returned
+            }
+            // the call was a model / an uninterpreted call: its result is already in the slot
+        }
     }
 
     fn cursor_elem(&self, st: &State<'tcx>, ptr: &Ptr<'tcx>, i: usize, by_value: bool) -> R<V<'tcx>> {
@@ -2647,7 +2787,7 @@ pub fn summarise_root<'tcx>(tcx: TyCtxt<'tcx>, did: DefId) -> String {
     let args: GenericArgsRef<'tcx> = ty::GenericArgs::identity_for_item(tcx, did);
     let inst = Instance::new_raw(did, args);
     let body = tcx.instance_mir(inst.def);
-    let mut st = State { cells: vec![], frames: vec![], trace: vec![], decided: vec![], symcells: vec![], excluded: vec![] };
+    let mut st = State { cells: vec![], frames: vec![], trace: vec![], decided: vec![], symcells: vec![], excluded: vec![], pending: vec![] };
     let mut locals = vec![];
     for decl in body.local_decls.iter() {
         st.cells.push(Cell { ty: decl.ty, v: V::Undef, name: None });
